@@ -613,3 +613,90 @@ pub fn http_content_type_gate() -> Value {
 	}
 	json!({"probe":"http_content_type_gate","disagrees":false,"inputs_tried":tried,"bound":"6 accepted spellings x 3 case variants; 16 near-miss content types; absent header"})
 }
+
+/// C09: for any bytes the server may send no background task panics: the pending call fails and on_disconnect resolves.
+pub fn client_survives_hostile_ids() -> Value {
+	rt().block_on(async {
+		let hostile = [
+			r#"[{"jsonrpc":"2.0","id":18446744073709551615,"result":1}]"#.to_string(),
+			r#"[{"jsonrpc":"2.0","id":18446744073709551614,"result":1},{"jsonrpc":"2.0","id":18446744073709551615,"result":1}]"#.to_string(),
+			r#"[{"jsonrpc":"2.0","id":0,"result":1},{"jsonrpc":"2.0","id":18446744073709551615,"result":1}]"#.to_string(),
+			r#"{"jsonrpc":"2.0","id":18446744073709551615,"result":1}"#.to_string(),
+			r#"[{"jsonrpc":"2.0","id":"18446744073709551615","result":1}]"#.to_string(),
+			r#"[]"#.to_string(),
+			r#"[{"jsonrpc":"2.0","id":null,"result":1}]"#.to_string(),
+		];
+		for msg in hostile {
+			let (c, mut peer) = mock::client(ClientBuilder::default().request_timeout(std::time::Duration::from_secs(5)));
+			let c = std::sync::Arc::new(c);
+			let c2 = c.clone();
+			let call = tokio::spawn(async move { c2.request::<u64, _>("m", rpc_params![]).await });
+			let _req = peer.next().await.unwrap();
+			peer.send(&msg);
+			let res = tokio::time::timeout(std::time::Duration::from_secs(2), call).await;
+			let disc = tokio::time::timeout(std::time::Duration::from_secs(2), c.on_disconnect()).await;
+			match (res, disc) {
+				(Ok(Ok(Err(_))), Ok(_)) => {}
+				(r, d) => {
+					return json!({"probe":"client_survives_hostile_ids","disagrees":true,"input":format!("one pending call; server sends {msg}"),
+						"observed": format!("pending call: {}, on_disconnect: {}", match r { Ok(Ok(Ok(v))) => format!("Ok({v})"), Ok(Ok(Err(e))) => format!("Err({e})"), Ok(Err(_)) => "task panicked".into(), Err(_) => "still pending after 2s".into() },
+							if d.is_ok() { "resolved" } else { "still pending after 2s (background task gone without reporting)" }),
+						"expected":"the call fails with the disconnect cause and on_disconnect resolves"});
+				}
+			}
+		}
+		json!({"probe":"client_survives_hostile_ids","disagrees":false,"inputs_tried":7})
+	})
+}
+
+/// C05: notifications packed in an array behave like the same notifications sent singly (incl. the close notification).
+pub fn client_subscription_array_equals_single() -> Value {
+	rt().block_on(async {
+		let mut outcomes: Vec<(bool, Vec<String>, bool)> = Vec::new();
+		for packed in [false, true] {
+			let (c, mut peer) = mock::client(ClientBuilder::default());
+			let fut = c.subscribe::<String, _>("sub", rpc_params![], "unsub");
+			let h = tokio::spawn(async move {
+				let req = peer.next().await.unwrap();
+				peer.send(&json!({"jsonrpc":"2.0","id":id_of(&req),"result":"S1"}).to_string());
+				peer
+			});
+			let mut sub: Subscription<String> = fut.await.unwrap();
+			let peer = h.await.unwrap();
+			let n1 = json!({"jsonrpc":"2.0","method":"sub","params":{"subscription":"S1","result":"a"}});
+			let other = json!({"jsonrpc":"2.0","method":"sub","params":{"subscription":"OTHER","result":"zzz"}});
+			let n2 = json!({"jsonrpc":"2.0","method":"sub","params":{"subscription":"S1","result":"b"}});
+			let close = json!({"jsonrpc":"2.0","method":"sub","params":{"subscription":"S1","error":"bye"}});
+			if packed {
+				peer.send(&json!([n1, other, n2, close]).to_string());
+			} else {
+				for m in [n1, other, n2, close] {
+					peer.send(&m.to_string());
+				}
+			}
+			let mut got = Vec::new();
+			let mut ended = false;
+			for _ in 0..4 {
+				match tokio::time::timeout(std::time::Duration::from_millis(600), sub.next()).await {
+					Ok(Some(Ok(v))) => got.push(v),
+					Ok(Some(Err(e))) => got.push(format!("ERR {e}")),
+					Ok(None) => {
+						ended = true;
+						break;
+					}
+					Err(_) => break,
+				}
+			}
+			outcomes.push((packed, got, ended));
+		}
+		let want = (vec!["a".to_string(), "b".to_string()], true);
+		for (packed, got, ended) in &outcomes {
+			if (got.clone(), *ended) != want {
+				return json!({"probe":"client_subscription_array_equals_single","disagrees":true,
+					"input": format!("subscription S1 accepted; server sends [notif a, notif for OTHER, notif b, close(S1)] {}", if *packed {"packed in ONE array"} else {"as four single messages"}),
+					"observed": format!("stream yielded {:?}, ended = {}", got, ended), "expected":"stream yields [\"a\", \"b\"] and then ends"});
+			}
+		}
+		json!({"probe":"client_subscription_array_equals_single","disagrees":false,"histories_tried":2})
+	})
+}
